@@ -238,7 +238,7 @@ def run(ctx):
     class Deep:
         quick, seed = False, ctx.seed
     cases += tie_cases(ctx, tie, lambda: gen(Deep))
-    corr = evaluate(ctx, cases, ["dbg", "bmi2", "relbmi2", "clang"] if ctx.quick else ["dbg", "bmi2", "rel", "relbmi2", "clang"])
+    corr = evaluate(ctx, cases, (["dbg", "bmi2", "relbmi2", "clang"] if ctx.quick else ["dbg", "bmi2", "rel", "relbmi2", "clang"]) + C.extra_cfgs())
     tie.merge(corr)
     return corr
 
